@@ -1504,9 +1504,13 @@ class CategorySubsetState(SubsetState):
 
     @memoize
     def to_mask(self, data, view=None):
-        vals = data[self._att, view]
+        # take the codes of the full array (cached there) and view them, since
+        # a scalar view of a categorical array is a plain string without codes
+        vals = data[self._att]
         if isinstance(vals, categorical_ndarray):
             vals = vals.codes
+        if view is not None:
+            vals = np.asarray(vals[view])
         result = np.isin(vals.ravel(), self._categories)
         return result.reshape(vals.shape)
 
